@@ -314,8 +314,15 @@ def _acyclic_without(facts, comp, cut, succ):
 
 
 def check_recursion(ctx, rule, scope, label="scope", allow=None):
-    """every call-graph cycle among `scope` needs a depth guard: a guard call, or an integer
-    parameter passed on as `param + const` and compared with a constant before the recursive call"""
+    """every call-graph cycle among `scope` must be cut by depth guards.  A function is a *cut point* when one of the
+    recognised guards dominates every call it makes back into its component:
+      - a call of a guard routine (GUARD_CALLS) or of a counter-field guard (`self.depth >= MAX -> Err; self.depth += 1`),
+        or such a counter-field guard inline;
+      - an in-progress set: a `contains`/`insert` test on a set whose hit returns early, with the `insert` of the current
+        key also dominating the recursive calls;
+      - an integer parameter passed on as `param + const` and compared with a bound before the call.
+    The component minus its cut points must be acyclic (so a path that re-enters the cycle *around* the guarded function is
+    reported).  A one-function component may instead be bounded by a type-tag exclusion (tag_exclusion_guard)."""
     facts = ctx.facts
     allow = allow or {}
     sc = set(scope)
@@ -332,70 +339,84 @@ def check_recursion(ctx, rule, scope, label="scope", allow=None):
         n += 1
         key = "recursion:%s" % "+".join(L.short(c) for c in comp if not c.endswith("}"))[:120]
         guarded = None
-        # counter-field guards (`self.depth >= MAX -> Err; self.depth += 1`), called or inline: the functions in which
-        # such a guard dominates every recursive call must cut every cycle of the component
         cut = set()
         names = set()
         for f in comp:
             fn = facts.fns[f]
             g = CF.cfg(fn)
-            rec = [b for b, c, a, d, t, u in fn.calls() if isinstance(c, dict) and (c.get("r") in comp)]
+            fl = FL.flow(fn)
+            rec = [(b, a) for b, c, a, d, t, u in fn.calls() if isinstance(c, dict) and (c.get("r") in comp)]
+            if not rec:
+                continue
             gb = []
             for b, c, a, d, t, u in fn.calls():
-                f2 = facts.fns.get(c.get("r")) if isinstance(c, dict) else None
+                if not isinstance(c, dict):
+                    continue
+                if L.is_call_to(c, GUARD_CALLS):
+                    gb.append(b)
+                    names.add("%s in %s" % (L.short(c.get("p") or "?"), L.short(f)))
+                f2 = facts.fns.get(c.get("r"))
                 if f2 is not None and f2.id not in comp and depth_guard_field(f2):
                     gb.append(b)
-                    names.add(L.short(f2.id))
+                    names.add("%s in %s" % (L.short(f2.id), L.short(f)))
             if depth_guard_field(fn):
                 gb.append(0)
-                names.add(L.short(f) + " (inline)")
-            if gb and all(any(g.dominates(x, r) for x in gb) for r in rec):
-                cut.add(f)
-        if cut and _acyclic_without(facts, comp, cut, succ):
-            guarded = "counter-field depth guard %s cuts every cycle" % sorted(names)
-        if not guarded and len([c for c in comp if not facts.fns[c].kind == "Closure"]) == 1:
-            guarded = tag_exclusion_guard(facts, facts.fns[[c for c in comp if facts.fns[c].kind != "Closure"][0]], comp)
-        for f in comp:
-            if guarded:
-                break
-            fn = facts.fns[f]
-            if L.calls_to(fn, GUARD_CALLS):
-                guarded = "guard call in %s" % L.short(f)
-                break
-            # depth parameter
-            fl = FL.flow(fn)
-            g = CF.cfg(fn)
-            for b, c, a, d, t, u in fn.calls():
-                r = c.get("r") or c.get("p")
-                if r not in comp:
+                names.add("counter field (inline) in " + L.short(f))
+            # in-progress set
+            tests = []
+            for b, c, a, d in L.calls_to(fn, SET_TESTS):
+                if "HashMap" in c["p"] and L.short(c["p"]) == "insert":
                     continue
+                te, fe = L.bool_edges(fn, d[0])
+                if te or fe:
+                    tests.append(b)
+            inserts = [b for b, c, a, d in L.calls_to(fn, ["std::collections::HashSet::<T, S, A>::insert", "std::collections::BTreeSet::<T, A>::insert"])]
+            recb = [b for b, a in rec]
+            if tests and inserts and all(any(g.dominates(x, r) for x in tests) and any(g.dominates(x, r) for x in inserts) for r in recb):
+                gb.append(max(inserts))
+                names.add("in-progress set in " + L.short(f))
+                cut.add(f)
+            # depth parameter: every recursive call passes `param + const` that a dominating comparison bounds
+            def depth_param(b, a):
                 for op in a:
                     pl = FL.op_place(op)
-                    if pl is None or fn.locals[pl[0]] not in ("u8", "u16", "u32", "usize", "i32"):
+                    if pl is None or fn.locals[pl[0]] not in _INTS:
                         continue
                     seen, drecs = fl.back_slice([pl[0]], stop_at_calls=lambda cc: True)
                     adds = [dd for dd in drecs if dd[0] == "stmt" and fn.blocks[dd[1]][0][dd[2]][2][0] == "bin" and
                             fn.blocks[dd[1]][0][dd[2]][2][1].startswith("Add")]
-                    params = [x for x in seen if 1 <= x <= fn.nargs and fn.locals[x] in ("u8", "u16", "u32", "usize", "i32")]
+                    params = [x for x in seen if 1 <= x <= fn.nargs and fn.locals[x] in _INTS]
                     if not (adds and params):
                         continue
                     for sb in g.dominators(b):
                         for st in fn.blocks[sb][0]:
                             rv = st[2]
-                            if rv[0] == "bin" and rv[1] in ("Lt", "Le", "Gt", "Ge") and (rv[2][0] == "k" or rv[3][0] == "k" or True):
+                            if rv[0] == "bin" and rv[1] in ("Lt", "Le", "Gt", "Ge"):
                                 cs, _ = fl.back_slice(FL.op_locals(rv[2]) + FL.op_locals(rv[3]), stop_at_calls=lambda cc: True)
                                 if set(params) & cs:
-                                    guarded = "depth parameter of %s incremented and compared" % L.short(f)
-            if guarded:
-                break
+                                    return True
+                return False
+            per_call = [any(g.dominates(x, b) for x in gb) or depth_param(b, a) for b, a in rec]
+            if all(per_call):
+                cut.add(f)
+                if not any(any(g.dominates(x, b) for x in gb) for b, a in rec):
+                    names.add("depth parameter of " + L.short(f))
+        if cut and _acyclic_without(facts, comp, cut, succ):
+            guarded = "every cycle passes a guarded function: %s" % sorted(names)
+        nonclo = [c for c in comp if facts.fns[c].kind != "Closure"]
+        if not guarded and len(nonclo) == 1:
+            guarded = tag_exclusion_guard(facts, facts.fns[nonclo[0]], comp)
         if key in allow:
             ctx.ok(rule, key, "reviewed: " + allow[key], facts.fns[comp[0]].where())
         elif guarded:
             ctx.ok(rule, key, guarded, facts.fns[comp[0]].where())
         else:
-            ctx.violation(rule, key, "the functions %s call each other recursively with no depth guard (no guard call, no depth "
-                          "parameter compared with a bound): input nested deeply enough overflows the stack and aborts the process"
-                          % [L.short(c) for c in comp], facts.fns[comp[0]].where(), {"cycle": comp})
+            rest = [c for c in comp if c not in cut]
+            ctx.violation(rule, key, "the functions %s call each other recursively and not every cycle passes a depth guard "
+                          "(guard routine, counter field, in-progress set or bounded depth parameter dominating the recursive calls)%s: "
+                          "input nested or linked deeply enough overflows the stack and aborts the process"
+                          % ([L.short(c) for c in comp], (" — a cycle remains among %s" % [L.short(c) for c in rest if not c.endswith("}")]) if cut else ""),
+                          facts.fns[comp[0]].where(), {"cycle": comp, "guarded_functions": sorted(cut)})
     ctx.counts["%s:%s:recursive-cycles" % (rule, label)] = n
     return n
 
